@@ -54,17 +54,24 @@ Definition consts_of (t:target_consts) : consts :=
      k_errno := tc_ActionErrno t; k_eperm := tc_errnoEPERM t; k_enosys := tc_errnoENOSYS t;
      k_x32mask := tc_x32SyscallMask t; k_x86_64_id := ai_id info_X86_64 |}.
 
-(** [consts_of] lists exactly the keys of actionNames (tie to GenNames.v, host build) *)
-Theorem C19_named_actions_are_action_names : forall t, In t targets -> has_table_arch (tc_goarch t) = true ->
-  k_named_actions (consts_of t) = map fst action_names.
+(** [consts_of] names exactly the keys of actionNames (tie to GenNames.v, host build) - as a set: the compiler only
+    asks whether an action is named *)
+Definition same_set (a b:list N) : bool :=
+  forallb (fun x => existsb (N.eqb x) b) a && forallb (fun x => existsb (N.eqb x) a) b.
+Lemma same_set_existsb a b : same_set a b = true -> forall x, existsb (N.eqb x) a = existsb (N.eqb x) b.
 Proof.
-  assert (H: forallb (fun t => negb (has_table_arch (tc_goarch t)) ||
-     (fix eqb (a b:list N) := match a, b with [], [] => true | x :: a', y :: b' => (x =? y) && eqb a' b' | _, _ => false end)
-       (k_named_actions (consts_of t)) (map fst action_names)) targets = true) by (vm_compute; reflexivity).
-  rewrite forallb_forall in H. intros t Hin Ht. specialize (H t Hin). rewrite Ht in H. cbn [negb orb] in H.
-  revert H. generalize (k_named_actions (consts_of t)) (map fst action_names).
-  induction l as [|x a IH]; intros [|y b] H; try discriminate; [reflexivity|].
-  apply andb_true_iff in H. destruct H as [H1 H2]. apply N.eqb_eq in H1. subst. f_equal. apply IH. exact H2.
+  unfold same_set. intros H x. apply andb_true_iff in H. destruct H as [H1 H2]. rewrite forallb_forall in H1, H2.
+  destruct (existsb (N.eqb x) a) eqn:Ea, (existsb (N.eqb x) b) eqn:Eb; try reflexivity.
+  - apply existsb_exists in Ea. destruct Ea as [y [Hy E]]. apply N.eqb_eq in E. subst. rewrite (H1 y Hy) in Eb. discriminate.
+  - apply existsb_exists in Eb. destruct Eb as [y [Hy E]]. apply N.eqb_eq in E. subst. rewrite (H2 y Hy) in Ea. discriminate.
+Qed.
+Theorem C19_named_actions_are_action_names : forall t, In t targets -> has_table_arch (tc_goarch t) = true ->
+  forall a, is_named (consts_of t) a = existsb (N.eqb a) (map fst action_names).
+Proof.
+  assert (H: forallb (fun t => negb (has_table_arch (tc_goarch t)) || same_set (k_named_actions (consts_of t)) (map fst action_names)) targets = true)
+    by (vm_compute; reflexivity).
+  rewrite forallb_forall in H. intros t Hin Ht a. specialize (H t Hin). rewrite Ht in H. cbn [negb orb] in H.
+  unfold is_named. apply same_set_existsb. exact H.
 Qed.
 Print Assumptions C19_named_actions_are_action_names.
 
